@@ -87,11 +87,18 @@ def run_generated(ch, tier):
     a = Sim(sp, ignore_contract=False, clock=mkclock(), interpreter_klass=klass)
     ra = Rec(a.it)
     recs = []
+    erred = False
     for r in standard_ops(a, ch, tier, delays=True, hi=25 if tier == 'quick' else 60):
         res.stats['steps'] += 1
         if not r.init:
             legal_or_abandon(sp, r.pre, 'C09')
         if r.exc is not None and not (r.sel is not None and r.sel.err and type(r.exc).__name__ == r.sel.err):
+            if isinstance(r.exc, sx.CodeEvaluationError):
+                # generated code does not raise by itself: the history ends here and the ignoring twin decides whether the
+                # error belongs to the checking (it is then a difference between the twins) or to the code that both run
+                recs.append((sig(r.ms), sorted(r.post), r.ctx_after, r.exc_name(), len(ra.events)))
+                erred = True
+                break
             raise Abandon('other: unexpected %s in the checking twin' % r.exc_name())
         recs.append((sig(r.ms), sorted(r.post), r.ctx_after, r.exc_name(), len(ra.events)))
     script = a.script
@@ -124,6 +131,8 @@ def run_generated(ch, tier):
                             chart=sp.describe(), variant=variant)
         if [e for e in b.P.log if e[0] not in ('cond', 'tcond')] != [e for e in a.P.log if e[0] not in ('cond', 'tcond')]:
             return res.fail('twins-differ', 'executed code differs between the twins', chart=sp.describe(), variant=variant)
+    if erred:
+        raise Abandon('other: CodeEvaluationError in both twins')
     res.stats['generated_twin_runs'] += 1
     res.stats['twin_runs_with_skewing_clock'] += int(skew)
     res.stats['twin_runs_with_a_list_returning_evaluator'] += int(klass is not Interpreter)
